@@ -383,5 +383,5 @@ def run(chk, args):
         "explicitly from the board description; single calls with coordinates up to 10^18, negative and zero "
         "dimensions, link numbers outside 0..5; board counts %s. non-trivial = machine at least one board wide and "
         "high, in-domain single call, or a positive multiple of 3 boards; distinct by hash of the input"
-        % (("96x12/60x60", "every w,h in 1..40") if chk.tier != "quick" else ("48x24/36x36", "38 sizes in 1..40"),
-           "-12..90000 all" if chk.tier != "quick" else "-12..1200 all, plus samples to 3*2^52"))
+        % ((("96x12/60x60", "every w,h in 1..40") if chk.tier != "quick" else ("48x24/36x36", "38 sizes in 1..40"))
+           + ("-12..90000 all" if chk.tier != "quick" else "-12..1200 all, plus samples to 3*2^52",)))
